@@ -49,7 +49,7 @@ def pipelines():
         "mut_st": ({G: [mut, st]}, [K + "mut.arguments.scalar", K + "st.arguments.inc"], K + "mut.arguments.items", False),
         "st_mut": ({G: [st, mut]}, [K + "mut.arguments.scalar", K + "st.arguments.inc"], None, False),
         "mut_fl_st": ({G: [mut, fl, st]}, [K + "mut.arguments.scalar", K + "fl.arguments.arg"], None, True),
-        "mem_mut": ({G: [mem, mut]}, [K + "mem.arguments.inc", K + "mut.arguments.scalar"], None, False),
+        "mem_mut": ({G: [mut, mem]}, [K + "mem.arguments.inc", K + "mut.arguments.scalar"], None, False),
         "st_mem_fl": ({G: [st, mem, fl]}, [K + "mem.arguments.inc", K + "st.arguments.inc", K + "fl.arguments.arg"],
                       None, True),
         "two_groups": ({"photon_collection": [wr], G: [mut, st], "charge_measurement": [
@@ -78,6 +78,11 @@ def gen_spec(r, pname=None):
     if r.random() < 0.4 or ("mem" in pname and r.random() < 0.6):
         spec["persistence"] = r.choice([2.0, 0.25, 8.0])
     spec["pre_exposure"] = r.choice([0, 0, 1, 1, 2])
+    if r.random() < 0.4:
+        # a DISABLED model with a mutable argument: never run, but part of the user's pipeline (its settings must be
+        # copied, not shared: a later run or the user may enable it)
+        spec["pipeline"][G].append(dict(func="verif_probes.record", name="off", enabled=False,
+                                        arguments=dict(tag="off", extra=[1, 2])))
     return pname, spec, keys, lkey, has_fail
 
 
